@@ -447,6 +447,9 @@ def rule_log(item, pc):
                     if t[q].text == ";":
                         e = q
                     # swallow trailing whitespace up to newline
+                    if any(a_ <= t[i].s and t[e].e <= b_ for (a_, b_, _) in pc.dels):
+                        i = e + 1
+                        continue  # inside a range removed by R-XSTMTS / R-XEXPR
                     pc.delete(t[i].s, t[e].e, "R-LOG")
                     i = e + 1
                     continue
@@ -711,6 +714,50 @@ def rule_xexpr(item, pc, literal, call_text, all_occurrences=False):
         removed = src.text[t[a].s:t[b].e]
         pc.delete(t[a].s, t[b].e, "R-XEXPR", "expression moved verbatim into an external_body function (contract assumed)" + (" -- one of %d identical occurrences" % len(hits) if len(hits) > 1 else ""))
         pc.insert(t[a].s, call_text, "R-XEXPR")
+    return removed
+
+
+def rule_xstmts(item, pc, first_literal, last_literal, call_stmt):
+    """R-XSTMTS: a contiguous statement sequence -- from the statement that starts with `first_literal` to the statement that
+    ends with `last_literal` (each must occur exactly once; the range must start at a statement boundary and end with `;`) --
+    is replaced by ONE statement `call_stmt`, a `let` that binds the sequence's only live-out variable to the result of an
+    `external_body` function declared in the template (`//@xexprfn NAME nobody`: the removed text cannot be the body of a
+    function when, as here, it declares a local of a type Verus does not take).  The contract of that function is ASSUMED
+    (listed); the removed text is recorded.  Same trust as R-XEXPR.  Returns the removed text."""
+    src, t = item.src, item.src.toks
+    body_s, body_e = t[item.body_open].s, t[item.body_close].e
+    body = src.text[body_s:body_e]
+    if body.count(first_literal) != 1 or body.count(last_literal) != 1:
+        raise ExtractError(f"R-XSTMTS: `{item.name}`: the delimiting texts must each occur exactly once")
+    a_off = body_s + body.index(first_literal)
+    z_off = body_s + body.index(last_literal) + len(last_literal)
+    if z_off <= a_off:
+        raise ExtractError("R-XSTMTS: empty range")
+    a = next((i for i in range(item.body_open, item.body_close) if t[i].s == a_off), None)
+    zl = next((i for i in range(item.body_open, item.body_close + 1) if t[i].e == z_off), None)
+    if a is None or zl is None:
+        raise ExtractError("R-XSTMTS: range is not at token boundaries")
+
+    def balanced(lo, hi):
+        for k in range(lo, hi + 1):
+            if t[k].text in OPEN or t[k].text in CLOSE:
+                m = src.match(k)
+                if not (lo <= m <= hi):
+                    return False
+        return True
+    # the range ends at the end of the statement that contains `last_literal`: the first `;` after it that closes the brackets
+    z = None
+    for k in range(zl, item.body_close):
+        if t[k].text == ";" and balanced(a, k):
+            z = k
+            break
+    if z is None:
+        raise ExtractError("R-XSTMTS: no statement end after the last delimiting text")
+    if t[src.prev_sig(a)].text not in ("{", "}", ";"):
+        raise ExtractError("R-XSTMTS: range does not start at a statement boundary")
+    removed = src.text[t[a].s:t[z].e]
+    pc.delete(t[a].s, t[z].e, "R-XSTMTS", "statement sequence replaced by one call of an external_body function (contract assumed)")
+    pc.insert(t[a].s, call_stmt, "R-XSTMTS")
     return removed
 
 
